@@ -18,6 +18,7 @@ CONSTANTS
   AtomicPT = TRUE
   AtomicPut = TRUE
   NotifyAfterStore = TRUE
+  DrainThenSend = TRUE
   AtomicSubscribe = FALSE
 INVARIANTS Linearizable
 SYMMETRY Sym
